@@ -443,6 +443,17 @@ def write_replay(prop, seed, idx, payload):
     return p
 
 
+def harness_broken(prop, tier, seed, log):
+    """the correspondence harness does not compile against the repository's working tree: a public signature it uses has
+    changed, so the model can no longer be compared with the code and the property is no longer shown to hold"""
+    p = write_replay(prop, seed, 0, dict(property=prop, tier=tier, seed=seed, kind="no-failing-input-found",
+                                         broken="the correspondence harness (harness/, built with --cfg prometheus_verif against the repository's working tree) does not "
+                                                "compile: the public API it drives has changed, the correspondence between model and code cannot be established",
+                                         build_log=(log or "")[-4000:]))
+    print("VIOLATION property=%s replay=%s no-failing-input-found" % (prop, p))
+    return 1
+
+
 def load_known():
     p = os.path.join(VERIF, "known_findings.json")
     return json.load(open(p)) if os.path.exists(p) else []
